@@ -437,6 +437,12 @@ def rule_de(model, rep):
                   witness="CryptContext(truncate_error=True) is not applied to this scheme")
 
 
+def _len_rule(model, rep):
+    from . import shared as _shared
+    _shared.rule_len_after_encode(model, rep, "C05.h-length-in-bytes", ("passlib.handlers", "passlib.utils.handlers"), minimum=15)
+    _shared.rule_no_bool_coercer(model, rep, "C05.f-context-wide-option")
+
+
 def run(model, rep):
     rep.explanation = __doc__
     rep.assumptions = ["secret is str|bytes on entry (public API contract)", "library primitives consume the bytes they are given"]
@@ -446,5 +452,6 @@ def run(model, rep):
     rule_de(model, rep)
     rule_f(model, rep)
     rule_g(model, rep)
+    _len_rule(model, rep)
     from . import shared
     shared.fact_expand_settings(model, rep, "C05.e-declared-limit")
